@@ -136,7 +136,14 @@ def _write_files(d, files, target_name, rng):
     for i, f in enumerate(files):
         f = copy.deepcopy(f)
         for sec, body in f.pop("__perfile__", []):
-            f.setdefault(sec, []).append({target_name: body})
+            lst = f.setdefault(sec, [])
+            # neighbours: plain file names (file_list only) and other files' own sections, before and after
+            pre = rng.randrange(3)
+            for k in range(pre):
+                lst.append("other%d.vhd" % k if sec == "file_list" and rng.random() < 0.6 else {"other%d.vhd" % k: {"rule": {"entity_004": {"disable": True}}}})
+            lst.append({target_name: body})
+            for k in range(rng.randrange(2)):
+                lst.append("other%d.vhd" % (k + 3) if sec == "file_list" else {"other%d.vhd" % (k + 3): {"rule": {"entity_004": {"disable": True}}}})
         if not f:
             continue
         if rng.random() < 0.5:
@@ -210,6 +217,9 @@ def run_case(case):
         target = "design.vhd"
         with open(target, "w") as fh:
             fh.write("\n".join(lines) + "\n")
+        for k in range(6):
+            with open("other%d.vhd" % k, "w") as fh:
+                fh.write("entity other%d is\nend entity other%d;\n" % (k, k))
         files, a, assigns = make_stack(rid, rng)
         if files is None:
             return {"status": "skip", "why": "rule has no attribute with a known domain"}
